@@ -454,7 +454,7 @@ type c17cfg struct {
 
 type c17counters struct {
 	answers, concAnswers, dupDos, deliveries, subs, reads, writes, waitsTrue, waits, blockedDo, blockedDeliver atomic.Int64
-	batches                                                                                                     int
+	batches                                                                                                    int
 }
 
 func c17runCase(out *rec.Out, idx int, rng *rec.Rng, tier string, stats map[string]int) {
